@@ -35,14 +35,21 @@ class Api:
     def classify(self, c):
         """('panicky', rule, reason) | ('total', reason) | ('dep', crate) | ('unknown',)"""
         p = c["path"]
-        for rx, rule, reason in self.panicky:
-            if rx.search(p):
-                return ("panicky", rule, reason)
+        forms = [p]
+        # rustc prints a trait method either as `<T as Trait>::m` or as `module::<impl Trait for T>::m`: one meaning
+        m = re.match(r"^(?:[\w:]+::)?<impl (.+) for (.+)>::(\w+)$", p)
+        if m:
+            forms.append("<%s as %s>::%s" % (m.group(2), m.group(1), m.group(3)))
+        for f in forms:
+            for rx, rule, reason in self.panicky:
+                if rx.search(f):
+                    return ("panicky", rule, reason)
         if c["crate"] in self.deps:
             return ("dep", c["crate"])
-        for rx, reason in self.total:
-            if rx.search(p):
-                return ("total", reason)
+        for f in forms:
+            for rx, reason in self.total:
+                if rx.search(f):
+                    return ("total", reason)
         return ("unknown",)
 
 
@@ -179,6 +186,8 @@ def justify(facts, roles, arity, src, table):
     if rule == "table":
         return None
     if rule == "assert":
+        if t.get("msg") == "BoundsCheck":
+            return j_bounds(facts, roles, arity, b, bi, t)
         return j_assert(facts, b, bi, t)
     if rule in ("some", "ok"):
         return j_unwrap(facts, b, bi, t, "Some" if rule == "some" else "Ok")
@@ -350,7 +359,7 @@ class Arity:
                     if tb is None or tb.kind != "fn":
                         continue
                     for i, a in enumerate(tm["args"]):
-                        if "std::vec::Vec<&" not in tb.local_ty(i + 1):
+                        if "std::vec::Vec<&" not in tb.local_ty(i + 1) and "[&serde_json::Value]" not in tb.local_ty(i + 1) and "[&'" not in tb.local_ty(i + 1):
                             continue
                         src = self.vec_of(cb, a)
                         cand.setdefault((c["key"], i + 1), []).append(src)
@@ -392,9 +401,30 @@ class Arity:
 CMP_FLIP = {"Eq": "Eq", "Ne": "Ne", "Lt": "Gt", "Le": "Ge", "Gt": "Lt", "Ge": "Le"}
 
 
-def j_index(facts, roles, arity, b, bi, t):
-    vec = arity.vec_of(b, t["args"][0])
-    idx = strip_refs(b.xtrace(t["args"][1]))
+def j_bounds(facts, roles, arity, b, bi, t):
+    """`slice[i]` on a slice view of the operand vector: the Assert's condition is `Lt(i, PtrMetadata(slice))`."""
+    e = strip_refs(b.trace(t["cond"]))
+    if e[0] != "binop" or e[1] != "Lt":
+        return None
+    ln = strip_refs(e[3])
+    if not (ln[0] == "unop" and ln[1] == "PtrMetadata"):
+        return None
+    # find the operand that holds the slice: the PtrMetadata statement in this block
+    for s in b.blocks[bi]["stmts"]:
+        if s["k"] == "Assign" and s["rv"]["k"] == "UnaryOp" and s["rv"]["op"] == "PtrMetadata":
+            vecop = s["rv"]["a"]
+            idxop = None
+            for s2 in b.blocks[bi]["stmts"]:
+                if s2["k"] == "Assign" and s2["rv"]["k"] == "BinaryOp" and s2["rv"]["op"] == "Lt":
+                    idxop = s2["rv"]["a"]
+            if idxop is not None:
+                return j_index(facts, roles, arity, b, bi, t, vecop, idxop)
+    return None
+
+
+def j_index(facts, roles, arity, b, bi, t, vecop=None, idxop=None):
+    vec = arity.vec_of(b, vecop if vecop is not None else t["args"][0])
+    idx = strip_refs(b.xtrace(idxop if idxop is not None else t["args"][1]))
     if idx[0] != "const" or not isinstance(const_value(idx[1]), int):
         return None
     c = const_value(idx[1])
@@ -476,8 +506,8 @@ def j_index(facts, roles, arity, b, bi, t):
 
 
 def is_len_of_vec(arity, body, e):
-    if e[0] == "call" and e[1] and e[1]["path"] == "std::vec::Vec::<T, A>::len":
-        a = strip_refs(e[2][0])
+    if (e[0] == "call" and e[1] and e[1]["path"] in ("std::vec::Vec::<T, A>::len", "core::slice::<impl [T]>::len")) or (e[0] == "unop" and e[1] == "PtrMetadata"):
+        a = strip_refs(e[2][0] if e[0] == "call" else e[2])
         root = body
         while root.kind == "closure" and root.key not in arity.vec_param:
             nb = body.facts.body(root.key.rsplit("::{closure#", 1)[0])
@@ -492,7 +522,7 @@ def is_len_of_vec(arity, body, e):
 
 
 # ------------------------------------------------------------------- loops
-FINITE_ITERS = re.compile(r"^<(std::str::(Chars|CharIndices|Bytes|Split\w*|Lines)|std::slice::Iter(Mut)?|std::vec::IntoIter|std::iter::(Enumerate|Map|Zip|Skip|Take|Rev|Filter|Peekable|Chain|Cloned|Copied)|std::ops::Range(Inclusive)?|serde_json::map::(Iter|Keys|Values|IntoIter)|std::collections::\w+::\w+)<.*> as std::iter::Iterator>::next$|^<std::ops::Range(Inclusive)?<.*> as std::iter::Iterator>::next$")
+FINITE_ITERS = re.compile(r"^<(std::str::(Chars|CharIndices|Bytes|Split\w*|Lines)|std::slice::(Iter(Mut)?|Chunks(Exact)?|RChunks(Exact)?|Windows|Split\w*)|std::vec::IntoIter|std::iter::(Enumerate|Map|Zip|Skip|Take|Rev|Filter|Peekable|Chain|Cloned|Copied)|std::ops::Range(Inclusive)?|serde_json::map::(Iter|Keys|Values|IntoIter)|std::collections::\w+::\w+)<.*> as std::iter::Iterator>::next$|^<std::ops::Range(Inclusive)?<.*> as std::iter::Iterator>::next$")
 
 
 def loops_of(body):
